@@ -63,7 +63,7 @@ def _selection(lam, which, k, sigma=None):
     return lam[order[:k]], gap
 
 
-def _spectrum(rng, d, which, k, sigma, cplx_vals=False, degenerate=False, lobpcg=False):
+def _spectrum(rng, d, which, k, sigma, cplx_vals=False, degenerate=False, lobpcg=False, exact_inside=True):
     """d prescribed eigenvalues whose selection boundary under (which, k, sigma) is separated by >= max(0.05, 0.04 R)"""
     R = max(3.0, d / 15.0)       # keep the level density moderate for the larger matrices
     gap_min = max(0.05, 0.04 * R)
@@ -96,7 +96,7 @@ def _spectrum(rng, d, which, k, sigma, cplx_vals=False, degenerate=False, lobpcg
                             break
         if degenerate and d >= 6:
             o = np.argsort(_key(lam, which, sigma), kind="stable")
-            if k >= 2:
+            if k >= 2 and exact_inside:
                 lam[o[1]] = lam[o[0]]            # a degenerate pair strictly inside the selection
             lam[o[-1]] = lam[o[-2]]              # and pairs strictly outside
             if k + 3 < d:
@@ -218,7 +218,8 @@ def _sizes(quick):
               "141,142} (both sides of the auto-selection thresholds d^2/k = 2000 / 10000), k in {1,2,5}; representations qarray / "
               "ndarray / csr / csc / coo / bsr / LinearOperator / Lazy; backends AUTO / numpy / scipy / lobpcg; rules default, SA, LA, "
               "LM, SM (dense backend only: ARPACK's SM mode does not converge reliably), TR and TM with a target, default with a "
-              "target; degenerate pairs strictly inside / outside the selection; boundary gap >= max(0.05, 0.04 R); return_vecs and sort both "
+              "target; exactly degenerate pairs strictly inside (dense and lobpcg backends only: a single-vector Krylov method cannot "
+              "reliably resolve exact multiplicities) and outside the selection; start vector v0 given or not (scipy); boundary gap >= max(0.05, 0.04 R); return_vecs and sort both "
               "ways; lobpcg on spectra with well separated extremal values (tolerance 2e-3); LinearOperator with a target only "
               "for d <= 20")
 def partial_hermitian(cx):
@@ -260,16 +261,25 @@ def partial_hermitian(cx):
                 supported, incidental = False, True
             if eff == "lobpcg" and (sigma is not None or rule not in ("SA", "LA")):
                 supported, incidental = False, True
-            lam = _spectrum(rng, d, rule, k, sigma, degenerate=degenerate, lobpcg=(eff == "lobpcg" and supported))
+            # a single-vector Krylov method (ARPACK) cannot reliably resolve an exact multiplicity: for that backend exact
+            # degeneracies are only placed outside the selection
+            lam = _spectrum(rng, d, rule, k, sigma, degenerate=degenerate, lobpcg=(eff == "lobpcg" and supported),
+                            exact_inside=(eff != "scipy"))
+            v0 = rng.normal(size=d) if (eff == "scipy" and rng.integers(0, 2)) else None
+            qseed = int(rng.integers(1 << 30))
             A = _herm_from(rng, lam, real)
             expect, _ = _selection(lam, rule, k, sigma)
             params = dict(d=d, k=k, backend=backend, eff=eff, which=which, sigma=None if sigma is None else round(sigma, 4),
-                          rep=r, real=real, degenerate=degenerate, return_vecs=return_vecs, sort=sort, via=via, herm=True)
+                          rep=r, real=real, degenerate=degenerate, return_vecs=return_vecs, sort=sort, via=via, herm=True,
+                          v0=v0 is not None)
 
             def t(part, A=A, r=r, k=k, backend=backend, which=which, sigma=sigma, return_vecs=return_vecs, sort=sort, via=via,
-                  expect=expect, eff=eff):
+                  expect=expect, eff=eff, v0=v0, qseed=qseed):
+                qu.seed_rand(qseed)
                 Ar = _rep(A, r)
                 kw = dict(k=k, which=which, sigma=sigma, sort=sort)
+                if v0 is not None:
+                    kw["v0"] = v0.astype(A.dtype)
                 if backend is not None:
                     kw["backend"] = backend
                 if via == "partial":
